@@ -164,6 +164,7 @@ def run(run, ix, tier):
     from .c02 import check_keyword_independence
     check_keyword_independence(run, ix, 'B-R3t')
     check_interval_literals(run, ix, eng)
+    check_shared_prefix_sign(run, ix)
     check_no_lossy_cache(run, ix)
 
 
@@ -240,6 +241,41 @@ def check_interval_literals(run, ix, eng):
         run.fail(Finding('C-R7', LIBMPI, f.qualname, 'from_str calls',
                          "centre must be converted with floor and ceiling and the half-width with "
                          "ceiling; found %s" % modes, line=f.lineno))
+
+
+def check_shared_prefix_sign(run, ix):
+    """C-R7: in the form `x[y,z]e` (shared digits x) the two literals x+y+e and x+z+e are ordered
+    by the SIGN of the shared prefix: for a negative prefix the larger digits give the lower
+    endpoint.  The branch must therefore order the two texts under a test of the sign of x (or take
+    min/max of the converted values) before rounding lower with floor and upper with ceiling"""
+    f = ix.func(LIBMPI, 'mpi_from_str')
+    # the branch that splits on '[' after a prefix
+    split = [x for x in _walk_own(f.node) if isinstance(x, ast.Assign) and isinstance(x.value, ast.Call) and
+             norm(x.value.func).endswith(".split") and norm(x.value.args[0]) == "'['" and
+             isinstance(x.targets[0], ast.Tuple)]
+    if len(split) != 1:
+        raise AnalysisError('mpi_from_str: shared-prefix form not found')
+    pre = norm(split[0].targets[0].elts[0])
+    body = None
+    p = split[0]
+    while p is not None and not (isinstance(getattr(p, '_parent', None), ast.If) and
+                                 p in getattr(p._parent, 'orelse', [])):
+        p = getattr(p, '_parent', None)
+    holder = p._parent.orelse if p is not None else []
+    sign_tests = [x for st in holder for x in ast.walk(st) if isinstance(x, ast.If) and
+                  pre in [n.id for n in ast.walk(x.test) if isinstance(n, ast.Name)] and "'-'" in norm(x.test)]
+    minmax = [x for st in holder for x in ast.walk(st) if isinstance(x, ast.Call) and
+              norm(x.func) in ('min', 'max', 'mpf_min_max', 'MIN', 'MAX')]
+    swaps = [x for t in sign_tests for x in ast.walk(t) if isinstance(x, ast.Assign) and
+             isinstance(x.targets[0], ast.Tuple) and isinstance(x.value, ast.Tuple) and
+             [norm(e) for e in x.targets[0].elts] == [norm(e) for e in reversed(x.value.elts)]]
+    if swaps or minmax:
+        run.ok('C-R7', "'x[y,z]e': the two literals are ordered by the sign of the shared prefix")
+    else:
+        run.fail(Finding('C-R7', LIBMPI, 'mpi_from_str', norm(split[0]),
+                         "in the form 'x[y,z]e' the literal with the smaller digits is always rounded as the "
+                         "lower endpoint; for a negative shared prefix it is the upper one, and the result is an "
+                         "inverted interval that does not contain the denoted range", line=split[0].lineno))
 
 
 def check_no_lossy_cache(run, ix):
